@@ -177,6 +177,12 @@ def _repo_for(ci):
 def _recs_of(verdicts):
     recs = []
     for ob, v, sec, m, why in verdicts:
+        if v not in ("sat", "unsat") and os.environ.get("PYVC_DEBUG"):
+            with open("/tmp/pyvc_unknown.log", "a") as f:
+                f.write(f"=== {ob.name} {v} {why} trace={ob.trace[-6:]}\n")
+                for c in ob.pc:
+                    f.write("   PC " + str(c)[:400].replace("\n", " ") + "\n")
+                f.write("   GOAL " + str(ob.goal)[:600].replace("\n", " ") + "\n")
         explained = False
         if v == "sat" and _JOB_KNOWN:
             ks = [k for k in _JOB_KNOWN if k["obligation"] == ob.name]
@@ -360,14 +366,17 @@ def run_jobs(check: Check, jobs, repo_root, known, timeout_ms, canaries):
     import multiprocessing as mp
     with ProcessPoolExecutor(max_workers=procs, mp_context=mp.get_context("fork")) as ex:
         futs = {}
-        order = list(states.values())
+        base_states = [st for st in states.values() if st.ci is None]
+        canary_states = [st for st in states.values() if st.ci is not None]
         while True:
-            # fill the pool (base jobs first, round-robin over states)
+            # the base obligations (the verdict) run first and alone; canaries (a self-test) only afterwards, so that
+            # solver budgets of the verdict are not squeezed by sixteen busy cores
+            order = base_states if not all(st.done for st in base_states) else canary_states
             progressed = True
-            while len(futs) < procs * 2 and progressed:
+            while len(futs) < procs + 2 and progressed:
                 progressed = False
                 for st in order:
-                    if len(futs) >= procs * 2:
+                    if len(futs) >= procs + 2:
                         break
                     t = next_task(st)
                     if t is not None:
@@ -438,7 +447,7 @@ def run_check(check: Check, tier: str = "quick", seed: int = 0) -> int:
     exit_code = 0
     repo_root = os.environ.get("VERIF_REPO", "/repo")
     known, fixed = load_known_findings(prop)
-    timeout_ms = 30000 if tier == "quick" else 120000
+    timeout_ms = 60000 if tier == "quick" else 180000
     errors: List[str] = []
     contracts = check.contracts()
     canaries = check.canaries()
